@@ -114,8 +114,7 @@ void UtilContext::disasm(uint32_t start, uint32_t end)
   int address_min,address_max;
   int curr_end;
 
-  start = start * bytes_per_address;
-  end = end * bytes_per_address;
+  // start and end are byte addresses (memory.low_address / high_address).
 
   page_size = memory.get_page_size();
   page_mask = page_size - 1;
